@@ -15,7 +15,7 @@ use refimpl::server::{apply_fault, FaultKind};
 use serde::{Deserialize, Serialize};
 
 pub const LEVEL: &str = "fault_enumeration";
-pub const RULE: &str = "faults injected into valid CredSSP / NTLM server messages. direct entries Ntlm::read_challenge_message, cssp::read_ts_server_challenge, cssp::read_ts_validate, gss_unwrapex: every scalar field of a CHALLENGE (all 16-bit lengths and 32-bit offsets at their boundaries, flags, every AvId 0..0x20 and 0xffff, AV lengths) swept over boundary values (field-sweep, enumerated over several challenge layouts incl. missing timestamp, missing EOL, zero-length target info), truncation at every byte, extensions, xor corruption and double faults (generated); TSRequest trees with empty / multiple / missing negoTokens, wrong tags, BER forms; all byte strings of length <= 2 (3 thorough) at each entry. tls section: whole NLA handshakes through Connector::connect where the server's CHALLENGE TSRequest or final reply is replaced by a faulty one. Oracle: Ok or Err, never a panic / spin / disproportionate allocation. Non-trivial = the message differs from a conforming one; distinct by hash of the case.";
+pub const RULE: &str = "faults injected into valid CredSSP / NTLM server messages; cssp-stream: cssp_connect over a scripted raw stream whose first TSRequest has a size on and around the client's 1500-byte read size and its multiples with DER headers announcing less / exactly / more, served whole, in pieces or byte by byte, then end of stream (spin = more than 64 reads at end of stream); big-target-info: well-formed CHALLENGEs whose target information has every total length in 64936..=65535 (and a coarse sweep below) read with identities of four sizes. direct entries Ntlm::read_challenge_message, cssp::read_ts_server_challenge, cssp::read_ts_validate, gss_unwrapex: every scalar field of a CHALLENGE (all 16-bit lengths and 32-bit offsets at their boundaries, flags, every AvId 0..0x20 and 0xffff, AV lengths) swept over boundary values (field-sweep, enumerated over several challenge layouts incl. missing timestamp, missing EOL, zero-length target info), truncation at every byte, extensions, xor corruption and double faults (generated); TSRequest trees with empty / multiple / missing negoTokens, wrong tags, BER forms; all byte strings of length <= 2 (3 thorough) at each entry. tls section: whole NLA handshakes through Connector::connect where the server's CHALLENGE TSRequest or final reply is replaced by a faulty one. Oracle: Ok or Err, never a panic / spin / disproportionate allocation. Non-trivial = the message differs from a conforming one; distinct by hash of the case.";
 
 #[derive(Serialize, Deserialize, Hash, Clone, Debug)]
 pub enum Case {
@@ -27,6 +27,10 @@ pub enum Case {
     Tls { base: C17Case, challenge_ts: Option<Vec<u8>>, final_reply: Option<FinalReply> },
     /// a token sealed by the reference peer (under the keys the gss_unwrapex entry uses), then faulted
     Sealed { msg_len: u16, fault: Option<FaultKind>, via_ts_validate: bool },
+    /// a well-formed CHALLENGE whose target information is `total` bytes long (one big pair + timestamp + EOL), read with identities of different sizes
+    BigInfo { total: u16, ident: u8, version: bool, unicode: bool },
+    /// cssp_connect over a raw scripted stream: the server's first TSRequest arrives as `data` cut by `schedule`, then end of stream
+    Stream { data: Vec<u8>, schedule: Vec<u16> },
 }
 
 fn sealed_token(msg_len: usize) -> refimpl::rd::Built {
@@ -128,6 +132,54 @@ pub fn run(c: &Case) -> Outcome {
                 entry_call(&mut out, 3, &bytes);
             }
         }
+        Case::BigInfo { total, ident, version, unicode } => {
+            out.label("big-target-info");
+            out.nontrivial(true);
+            let total = (*total).max(20) as usize;
+            let mut ch = base_challenges()[0].clone();
+            ch.flags = ntlm::MANDATORY | if *version { ntlm::NEG_VERSION } else { 0 } | if *unicode { ntlm::NEG_UNICODE } else { ntlm::NEG_OEM };
+            ch.target_name = Vec::new();
+            ch.gap = 0;
+            // timestamp pair (12) + big pair (4 + n) + EOL (4) = total
+            ch.target_info = vec![(7, vec![1, 2, 3, 4, 5, 6, 7, 8]), (2, vec![0x41; total - 20])];
+            let b = ntlm::build_challenge(&ch);
+            let (d, u) = match ident % 4 {
+                0 => (String::new(), String::new()),
+                1 => ("domain".to_string(), "user".to_string()),
+                2 => ("D".repeat(15), "U".repeat(20)),
+                _ => ("d".repeat(64), "u".repeat(104)),
+            };
+            let bytes = b.bytes.clone();
+            guard_entry(&mut out, "read_challenge_message", bytes.len(), move || {
+                let mut n = Ntlm::new(d, u, "pass".into());
+                n.create_negotiate_message()?;
+                n.read_challenge_message(&bytes).map(|_| ())
+            });
+        }
+        Case::Stream { data, schedule } => {
+            out.label("cssp-stream");
+            out.nontrivial(!data.is_empty());
+            let (reader, _handed, eof) = crate::io::ChunkReader::new(data.clone(), schedule.clone());
+            let n = data.len();
+            let (r, st) = call(move || {
+                let mut link = rdp::model::link::Link::new(rdp::model::link::Stream::Raw(reader));
+                let mut ntlm = Ntlm::new("dom".into(), "user".into(), "pass".into());
+                cssp::cssp_connect(&mut link, &mut ntlm, false)
+            });
+            match r {
+                Res::Panic(p) => fail_panic(&mut out, "cssp_connect", &p),
+                Res::Ok(()) => {
+                    out.label("ok");
+                }
+                Res::Err(_) => {
+                    out.label("err");
+                }
+            }
+            check_alloc(&mut out, "cssp_connect", &st, n);
+            if *eof.borrow() > 64 {
+                out.fail("cssp_connect:spin", format!("more than 64 reads on a finished stream ({} bytes served)", n));
+            }
+        }
         Case::Tls { base, challenge_ts, final_reply } => {
             out.label("tls");
             out.nontrivial(true);
@@ -182,6 +234,51 @@ pub fn run_cert(c: &Case) -> Outcome {
         }
     }
     out
+}
+
+/// TSRequest-like byte strings whose size sits on the client's 1500-byte read size and its multiples, with DER
+/// headers announcing less, exactly, or more than what follows; served whole, in pieces, or byte by byte
+fn stream_cases() -> Vec<Case> {
+    let mut v = Vec::new();
+    let ch = ntlm::build_challenge(&base_challenges()[0]);
+    let honest = ntlm::build_ts_request(2, Some(&ch.bytes), None, None, LenForm::Minimal);
+    for schedule in [vec![], vec![1500u16], vec![1u16], vec![700u16, 800], vec![1499u16, 1]] {
+        v.push(Case::Stream { data: honest.clone(), schedule: schedule.clone() });
+        for size in [0usize, 1, 2, 3, 4, 5, 1498, 1499, 1500, 1501, 1502, 2999, 3000, 3001, 4500, 6000] {
+            for announced in [0usize, 1, 100, size.saturating_sub(5), size.saturating_sub(4), size, size + 1, size + 1500, 3000, 65535, 0x10000, 0xFFFFFF, 0x7FFF_FFFF, 0xFFFF_FFFF] {
+                for form in 0..3u8 {
+                    let mut d = vec![0x30u8];
+                    match form {
+                        0 => d.extend_from_slice(&[0x82, (announced >> 8) as u8, announced as u8]),
+                        1 => d.extend_from_slice(&[0x83, (announced >> 16) as u8, (announced >> 8) as u8, announced as u8]),
+                        _ => d.extend_from_slice(&[0x84, (announced >> 24) as u8, (announced >> 16) as u8, (announced >> 8) as u8, announced as u8]),
+                    }
+                    // plausible content: the honest TSRequest body repeated
+                    while d.len() < size {
+                        let need = size - d.len();
+                        d.extend_from_slice(&honest[4.min(honest.len())..][..need.min(honest.len() - 4)]);
+                    }
+                    d.truncate(size);
+                    v.push(Case::Stream { data: d, schedule: schedule.clone() });
+                }
+            }
+        }
+    }
+    v
+}
+
+fn big_info(part: usize, parts: usize) -> impl Iterator<Item = Case> {
+    // every total length in the last 600 bytes of the 16-bit range, a coarse sweep below it
+    let totals: Vec<u16> = (20u32..64936).step_by(487).chain(64936..=65535).map(|x| x as u16).collect();
+    let mut v = Vec::new();
+    for t in totals {
+        for ident in 0..4u8 {
+            for (version, unicode) in [(true, true), (false, true), (true, false)] {
+                v.push(Case::BigInfo { total: t, ident, version, unicode });
+            }
+        }
+    }
+    v.into_iter().enumerate().filter(move |(i, _)| i % parts == part).map(|(_, c)| c)
 }
 
 pub fn gen_fault(s: &mut Src) -> FaultKind {
@@ -256,7 +353,37 @@ fn gen_tree(s: &mut Src) -> Node {
 }
 
 pub fn decode(s: &mut Src) -> Case {
-    match s.below(11) {
+    match s.below(13) {
+        11 => Case::BigInfo { total: if s.bool() { 65535 - s.below(700) as u16 } else { s.u16() }, ident: s.u8(), version: s.bool(), unicode: s.chance(200) },
+        12 => {
+            // a stream whose length is near a multiple of the 1500-byte read size, DER-framed or free
+            let size = match s.below(4) {
+                0 => s.below(64),
+                1 => 1500 * (1 + s.below(3)) + s.below(5) - 2,
+                2 => 1500 * (1 + s.below(3)),
+                _ => s.below(5000),
+            };
+            let mut d = s.fill(size);
+            if s.chance(200) && size >= 5 {
+                let announced = match s.below(4) {
+                    0 => size as u32 - 4,
+                    1 => size as u32 + s.below(3000) as u32,
+                    2 => s.b32(),
+                    _ => s.below(size + 1) as u32,
+                };
+                d[0] = 0x30;
+                d[1] = 0x82;
+                d[2] = (announced >> 8) as u8;
+                d[3] = announced as u8;
+            }
+            let schedule = match s.below(4) {
+                0 => vec![],
+                1 => vec![1500],
+                2 => vec![1 + s.below(1600) as u16],
+                _ => vec![1 + s.below(1600) as u16, 1 + s.below(1600) as u16],
+            };
+            Case::Stream { data: d, schedule }
+        }
         10 => Case::Sealed { msg_len: s.small(300) as u16, fault: if s.chance(16) { None } else { Some(gen_fault(s)) }, via_ts_validate: s.bool() },
         0 => {
             let n = s.below(64);
@@ -400,6 +527,8 @@ pub fn check(rep: &Report) {
     rep.assume("adversarial X.509 certificates that OpenSSL accepts but the client's certificate parser rejects are not generated (DESIGN §8)");
     let tier = rep.tier;
     rep.enumerate("field-sweep", true, move |p, n| sweep(tier, p, n), run);
+    rep.list("cssp-stream", stream_cases(), run);
+    rep.enumerate("big-target-info", true, big_info, run);
     rep.random("faults", rep.tier.n(400_000, 10_000_000), 160, decode, run);
     rep.random("tls", rep.tier.n(600, 20_000), 200, decode_tls, run);
     // unusual but valid server certificates through the client's certificate parser (honest handshakes)
